@@ -32,6 +32,11 @@ func famIter(w *bufio.Writer, seed uint64, n int) error {
 	defer func() { moss.DefaultNaiveSeekToMaxTries = 100 }()
 	for i := 0; i < n; i++ {
 		cs := seed*1000003 + uint64(i)
+		if i == 0 && seed%4 == 0 {
+			// every fourth shard starts with the depth probe (a child process)
+			deepDelCase(emit, i, cs)
+			continue
+		}
 		r := newRng(cs ^ 0x4b)
 		withLL := r.chance(1, 2)
 		dir := mustMkdirTemp(workDir, "iter")
